@@ -258,13 +258,30 @@ Theorem C01_converges_refuted_pk_desc :
 Proof. exists w_pk_desc. eexists. split; [vm_compute; reflexivity|]. vm_compute. discriminate. Qed.
 Print Assumptions C01_converges_refuted_pk_desc.
 
-(** DEFAULT sql("(1 + 1)"): a raw expression written with its own parentheses *)
+(** DEFAULT sql("(1 + 1)"): a raw expression written with its own parentheses.  FIXED in the Go code (fix
+    "sqlite differ compares two unquoted column defaults up to their outer parentheses", known finding
+    C01-raw-default-parens): SQLite reports the default as 1 + 1, and [sqlite_default_changed] of
+    Diff/DiffSqlite.v now compares unquoted defaults after MayWrap; the former witness is inside [supported]
+    and converges.  The second theorem is about the OLD differ ([sqlite_default_changed_old]): it reported the
+    inspected column as changed after every apply. *)
 Definition w_raw_default : xschema :=
   [tbl n_t [mkColumn n_a 2 T_int true (Some (DRaw [40;49;32;43;32;49;41]%N)) None None] None [] [] []].
-Theorem C01_converges_refuted_raw_default :
-  exists B d', apply_plan nm empty_db B = Some (Ok d') /\ ~ synced nm d' B.
-Proof. exists w_raw_default. eexists. split; [vm_compute; reflexivity|]. vm_compute. discriminate. Qed.
-Print Assumptions C01_converges_refuted_raw_default.
+Theorem C01_converges_raw_default_fixed :
+  supported empty_db w_raw_default = true /\
+  exists d', apply_plan nm empty_db w_raw_default = Some (Ok d') /\ synced nm d' w_raw_default.
+Proof.
+  assert (S : supported empty_db w_raw_default = true) by (vm_compute; reflexivity).
+  split; [exact S|]. destruct (converges_supported nm empty_db w_raw_default S) as [p [d' [P [E Y]]]].
+  exists d'. split; [|exact Y]. unfold apply_plan. rewrite P, E. reflexivity.
+Qed.
+Print Assumptions C01_converges_raw_default_fixed.
+Theorem C01_raw_default_old_code_refuted :
+  let desired := mkColumn n_a 2 T_int true (Some (DRaw [40;49;32;43;32;49;41]%N)) None None in
+  let inspected := mkColumn n_a 2 T_int true (Some (DRaw [49;32;43;32;49]%N)) None None in
+  inspect_column desired = inspected /\
+  sqlite_default_changed_old inspected desired = true /\ sqlite_default_changed inspected desired = false.
+Proof. vm_compute. repeat split; reflexivity. Qed.
+Print Assumptions C01_raw_default_old_code_refuted.
 (** ... and the same default without the parentheses converges *)
 Definition w_raw_default_ok : xschema :=
   [tbl n_t [mkColumn n_a 2 T_int true (Some (DRaw [49;32;43;32;49]%N)) None None] None [] [] []].
